@@ -226,7 +226,8 @@ def gen_plan(rng, tier, idx, opts):
             per_v.append({nm: [gen_obs(rng, nm, mode) for _ in range(rng.randint(1, 5))] for nm in names})
         sets.append({"grid": g, "obs": per_v})
     return {"world": "results", "level": "combine", "mode": mode, "names": names, "fixed": {"nt": rng.choice([2, "x"])},
-            "array": rng.random() < 0.5, "sets": sets}
+            "array": rng.random() < 0.5, "sets": sets,
+            "scale": rng.choice([None, None, None, 1e-9, 0.5])}      # grid values are scale*k: distinct floats, possibly tiny
 
 
 # --------------------------------------------------------------------------
@@ -447,8 +448,10 @@ def _exec_combine(plan, res, log, pid, mode):
         for k, v in plan["fixed"].items():
             params.add(k, v)
         pn = sorted(sp["grid"])
+        sc = plan.get("scale")
         for k in pn:
-            params.add(k, np.array(sp["grid"][k]) if plan.get("array") else list(sp["grid"][k]))
+            vals = list(sp["grid"][k]) if sc is None else [v * sc for v in sp["grid"][k]]
+            params.add(k, np.array(vals) if plan.get("array") else vals)
             params.set_unpack_parameter(k)
         s = SimulationResults()
         s.set_parameters(params)
@@ -503,7 +506,13 @@ def _exec_combine(plan, res, log, pid, mode):
                 add_violation(res, pid + ".grouping", 0, "combined result %s for %s=%s: %s" % (nm, pn, combo, why),
                               {"op": "combine", "level": "combine", "type": nm})
                 return
-    got_params = {k: [int(x) for x in union.params[k]] for k in pn}
+    sc = plan.get("scale")
+    if sc is None:
+        got_params = {k: [int(x) for x in union.params[k]] for k in pn}
+    else:
+        got_params = {k: [int(round(float(x) / sc)) for x in union.params[k]] for k in pn}
+        if any(len(union.params[k]) != len(ugrid[k]) for k in pn):
+            got_params = {k: [float(x) for x in union.params[k]] for k in pn}
     if got_params != ugrid:
         add_violation(res, pid + ".grouping", 0, "combined parameters %s, union of the grids %s" % (got_params, ugrid), {"op": "combine", "level": "combine"})
         return
